@@ -17,7 +17,7 @@ func NewBoolField(read func(r {{.StructType}}) {{.TypeName}}, write func(r *{{.S
 }
 
 func (f *BoolField) Schema() parquet.Field {
-	return parquet.Field{Name: f.Name(), Path: f.Path(), Type: BoolType, RepetitionType: parquet.RepetitionRequired, Types: []int{0}}
+	return parquet.Field{Name: f.Name(), Path: f.Path(), Type: BoolType, RepetitionType: parquet.RepetitionRequired, Types: make([]int, len(f.Path()))}
 }
 
 
